@@ -12,12 +12,12 @@ import (
 type CExpr interface{}
 
 type (
-	CIdent  struct{ Name string }
-	CInt    struct{ Val string }
-	CStr    struct{ Val string }
-	CBool   struct{ Val bool }
-	CNil    struct{}
-	CUnary  struct {
+	CIdent struct{ Name string }
+	CInt   struct{ Val string }
+	CStr   struct{ Val string }
+	CBool  struct{ Val bool }
+	CNil   struct{}
+	CUnary struct {
 		Op string
 		X  CExpr
 	}
@@ -152,7 +152,7 @@ func (ps *cparser) fail(f string, a ...interface{}) {
 	panic(cperr(fmt.Sprintf(f, a...) + fmt.Sprintf(" at offset %d", ps.peek().pos)))
 }
 func (ps *cparser) peek() ctok { return ps.toks[ps.p] }
-func (ps *cparser) next() ctok  { t := ps.toks[ps.p]; ps.p++; return t }
+func (ps *cparser) next() ctok { t := ps.toks[ps.p]; ps.p++; return t }
 func (ps *cparser) isOp(s string) bool {
 	t := ps.peek()
 	return t.kind == "op" && t.s == s
